@@ -52,17 +52,35 @@ def run(repo: Repo, chk: Check) -> None:
     chk.ob('R-TABLE', f'{F}.MINIMAL_MUTEZ_PER_GAS_UNIT', consts['MINIMAL_MUTEZ_PER_GAS_UNIT'] == 0.1, '0.1 mutez per gas unit', mi.relpath, consts,
            what='node default is 100 nanotez per gas unit')
 
+    # fallback protocol constants used by fill() to price the default gas limit (Quebec/Rio: 1 040 000 gas, 60 000 bytes per operation)
+    dc = repo.const(f'{F}.DEFAULT_CONSTANTS')
+    chk.ob('R-TABLE', f'{F}.DEFAULT_CONSTANTS', dc.get('hard_gas_limit_per_operation') == 1040000 and dc.get('hard_storage_limit_per_operation') == 60000,
+           'fallback hard limits equal the protocol constants (1040000 gas, 60000 storage)', mi.relpath, {'found': dc},
+           what=f'DEFAULT_CONSTANTS is {dc}: fill() prices contract calls and originations with this gas limit while the limit written comes from the node '
+                f'(1040000): the fee is below the minimum')
     fill, autofill = repo.func(f'{G}.fill'), repo.func(f'{G}.autofill')
 
     def call(it, fi, obj, *args, **kwargs):
         return it.call_function(FuncRef(fi, obj, True), list(args), dict(kwargs), None, force_inline=True)
 
+    limits_written: Dict[str, List[Any]] = {}
+
+    def fee_and_limits(name, group):
+        lim = []
+        for c in group.fields['contents']:
+            v = c.get('gas_limit')
+            if isinstance(v, App) and v.op == 'str':
+                v = v.args[0]
+            lim.append(v)
+        limits_written[name] = lim
+        return total_fee(group)
+
     scenarios = {
-        'fill, 1 content': lambda it: total_fee(call(it, fill, mk_group(1))),
-        'fill, 2 contents': lambda it: total_fee(call(it, fill, mk_group(2))),
-        'autofill, 1 content': lambda it: total_fee(call(it, autofill, mk_group(1))),
-        'autofill, 2 contents': lambda it: total_fee(call(it, autofill, mk_group(2))),
-        'autofill, 3 contents': lambda it: total_fee(call(it, autofill, mk_group(3))),
+        'fill, 1 content': lambda it: fee_and_limits('fill, 1 content', call(it, fill, mk_group(1))),
+        'fill, 2 contents': lambda it: fee_and_limits('fill, 2 contents', call(it, fill, mk_group(2))),
+        'autofill, 1 content': lambda it: fee_and_limits('autofill, 1 content', call(it, autofill, mk_group(1))),
+        'autofill, 2 contents': lambda it: fee_and_limits('autofill, 2 contents', call(it, autofill, mk_group(2))),
+        'autofill, 3 contents': lambda it: fee_and_limits('autofill, 3 contents', call(it, autofill, mk_group(3))),
     }
     chk.set_clause('C24.2')
     for name, driver in scenarios.items():
@@ -100,6 +118,15 @@ def run(repo: Repo, chk: Check) -> None:
                 f'$GAS_{i}' in a and a.startswith('int(op:Div(op:Mult(100,') and a.endswith(', 1000))') and coefs[a] >= 1 for a in gas_atoms)]
             chk.ob('R-FLOW', where.qualname, not gas_missing, f'{name}: every content\'s simulated gas is paid for at 100 nanotez/unit', where.loc,
                    dict(facts, gas_terms=gas_atoms), what=f'{name}: the gas of content(s) {gas_missing} does not enter the fee at 0.1 mutez per unit')
+            # the node charges for the gas LIMIT written into the content (simulated gas + reserve), not for the simulated gas alone
+            unpaid = []
+            for i, lim in enumerate(limits_written.get(name, [])):
+                want_atom = f'int(op:Div(op:Mult(100, {vrepr(lim)}), 1000))'
+                if not any(a == want_atom and coefs[a] >= 1 for a in gas_atoms):
+                    unpaid.append({'content': i, 'gas_limit_written': vrepr(lim), 'gas_priced': [a for a in gas_atoms if f'$GAS_{i}' in a]})
+            chk.ob('R-FLOW', where.qualname, not unpaid and bool(limits_written.get(name)), f'{name}: the gas priced is the gas_limit written into the content', where.loc,
+                   dict(facts, unpaid=unpaid), what=f'{name}: the fee prices {[u["gas_priced"] for u in unpaid][:1]} but the content carries gas_limit '
+                                                    f'{[u["gas_limit_written"] for u in unpaid][:1]}: the reserve added to the limit is not paid for and the fee falls below the minimum')
         # (c)
         for siglen, kinds in ((64, 'tz1/tz2/tz3'), (96, 'tz4')):
             need = 100 + 32 + siglen + GROWTH + n + gas_const
